@@ -161,25 +161,36 @@ def allMechs : List Mech :=
 
 /-! ## Credentials and configuration -/
 
-/-- what `isMechanismAvailable` looks at: which secrets are non-empty, and which mechanism the stored token is for -/
+/-- state of a string credential (`QString`): never set (null), set but empty (`QString("")`, non-null), non-empty -/
+inductive Secret
+  | null | empty | nonEmpty
+  deriving DecidableEq, Repr
+
+/-- `!s.isEmpty()`: only a non-empty string is a credential -/
+def Secret.present : Secret → Bool
+  | .nonEmpty => true
+  | _ => false
+
+/-- what `isMechanismAvailable` looks at: the state of each secret string, and which mechanism the stored token is for
+(the token's own secret string is not looked at) -/
 structure Creds where
-  password : Bool := false
+  password : Secret := .null
   htToken : Option (Nat × Cb) := none
-  fbToken : Bool := false
-  fbAppId : Bool := false
-  google : Bool := false
-  windowsLive : Bool := false
+  fbToken : Secret := .null
+  fbAppId : Secret := .null
+  google : Secret := .null
+  windowsLive : Secret := .null
   deriving Repr
 
 /-- `QXmppSaslClient::isMechanismAvailable` -/
 def available (c : Creds) : Mech → Bool
   | .ht h cb => decide (c.htToken = some (h, cb)) && decide (cb = Cb.nob)
-  | .scram _ => c.password
-  | .simple .digestMd5 => c.password
-  | .simple .plain => c.password
-  | .simple .facebook => c.fbToken && c.fbAppId
-  | .simple .windowsLive => c.windowsLive
-  | .simple .google => c.google
+  | .scram _ => c.password.present
+  | .simple .digestMd5 => c.password.present
+  | .simple .plain => c.password.present
+  | .simple .facebook => c.fbToken.present && c.fbAppId.present
+  | .simple .windowsLive => c.windowsLive.present
+  | .simple .google => c.google.present
   | .simple .anonymous => true
 
 structure Cfg where
